@@ -180,6 +180,39 @@ def boundary_plans(rng) -> List[Dict[str, Any]]:
     return P
 
 
+def worlds(rng, n_random: int = 0) -> List[Dict[str, Any]]:
+    """Two accessories with different setup codes in one process / one driver whose code is changed; the peer
+    knows exactly one of the codes and runs complete exchanges against both, in both orders."""
+    W = []
+    c0 = {"conn": 0}
+
+    def exch(extra=()):
+        return [op_m1(rng, **c0), op_m3_honest(rng, "ok", **c0), op_m5(rng, "sess", "valid", **c0)] + list(extra)
+
+    def mk(order, same_driver, tail=()):
+        code1 = "%03d-%02d-%03d" % (rng.randrange(1000), rng.randrange(100), rng.randrange(1000))
+        code2 = _other_code(code1, code1).decode() if rng.random() < 0.5 else "%03d-%02d-%03d" % (
+            rng.randrange(1000), rng.randrange(100), (int(code1[-3:]) + 1 + rng.randrange(998)) % 1000)
+        # accessory #1: the peer knows its code (a legitimate pairing, then — on one driver — unpaired again)
+        p1 = new_plan(rng, exch([op_unpair(rng)] if same_driver else []), code=code1)
+        # accessory #2: the peer still only knows code #1
+        p2 = new_plan(rng, exch(tail), code=code2)
+        p2["peer_code"] = code1
+        if same_driver:
+            p2["acc_seed"] = p1["acc_seed"]
+        return {"world": True, "same_driver": same_driver, "plans": [p1, p2] if order == 0 else [p2, p1]}
+
+    for same_driver in (False, True):
+        for order in (0, 1):
+            W.append(mk(order, same_driver))
+    for _ in range(n_random):
+        tail = [rng.choice([op_m5_replay(rng, 0, **c0), op_m3_replay(rng, 0, **c0), op_m3_honest(rng, "ok", **c0),
+                            op_m5(rng, rng.choice(["sess", "good", "s0"]), "valid", **c0), op_m1(rng, **c0)])
+                for _ in range(rng.randrange(0, 4))]
+        W.append(mk(rng.randrange(2), rng.random() < 0.5, tail))
+    return W
+
+
 def random_plan(rng) -> Dict[str, Any]:
     ops = []
     n = rng.randrange(2, 11)
@@ -253,14 +286,53 @@ def outputs(r) -> Dict[str, bool]:
     }
 
 
-def run_plan(plan: Dict[str, Any]) -> Dict[str, Any]:
-    """Concretise and run a plan; judge it with the C01 oracle.  Pure function of the plan."""
+def _other_code(c: str, avoid: str) -> bytes:
+    for d in "123":
+        w = c[:-1] + d
+        if w != c and w != avoid:
+            return w.encode()
+    return (c + "0").encode()
+
+
+def run_world(world: Dict[str, Any]) -> List[Dict[str, Any]]:
+    """Several accessories with different setup codes living in ONE process (module-level state of pyhap is
+    shared), or one driver whose setup code is changed between two exchanges.  The peer uses the code named by
+    each plan's `peer_code`; every plan is judged against the code of ITS accessory."""
+    out = []
+    env = None
+    try:
+        for plan in world["plans"]:
+            if world.get("same_driver"):
+                if env is None:
+                    env = pe.Env(plan["code"].encode(), bytes.fromhex(plan["acc_seed"]))
+                else:
+                    env.state.pincode = plan["code"].encode()   # the owner changes the setup code at run time
+                    env.handlers.clear()
+                out.append(run_plan(plan, env=env))
+            else:
+                out.append(run_plan(plan))
+    finally:
+        if env is not None:
+            env.close()
+    return out
+
+
+def run_item(item) -> List[Dict[str, Any]]:
+    return run_world(item) if item.get("world") else [run_plan(item)]
+
+
+def run_plan(plan: Dict[str, Any], env=None) -> Dict[str, Any]:
+    """Concretise and run a plan; judge it with the C01 oracle.  Pure function of the plan (and of what ran
+    before it in the same process, for worlds)."""
     from cryptography.hazmat.primitives.asymmetric import ed25519
 
-    code = plan["code"].encode()
-    wrong = (plan["code"][:-1] + ("1" if plan["code"][-1] != "1" else "2")).encode()
-    env = pe.Env(code, bytes.fromhex(plan["acc_seed"]),
-                 prepaired=[(u.encode(), bytes.fromhex(k)) for u, k in plan["prepaired"]])
+    code = plan["code"].encode()                                # the accessory's setup code (what the oracle uses)
+    pcode = plan.get("peer_code", plan["code"]).encode()        # the code the peer knows and uses for "ok" ops
+    wrong = _other_code(pcode.decode(), plan["code"])
+    own_env = env is None
+    if own_env:
+        env = pe.Env(code, bytes.fromhex(plan["acc_seed"]),
+                     prepaired=[(u.encode(), bytes.fromhex(k)) for u, k in plan["prepaired"]])
     sc = pe.Script(env)
     cur = None            # (salt, B) of the latest M2 the accessory issued
     demo = False          # ghost: a demonstrating M3 was sent in the exchange opened by `cur`
@@ -299,7 +371,7 @@ def run_plan(plan: Dict[str, Any]) -> Dict[str, Any]:
                 csalt, cB = cur if cur else (b"\x00" * 16, b"\x02")
                 if op["mode"] == "honest":
                     a = int(op["a"], 16)
-                    cl = ref.client(code if op["code"] == "ok" else wrong, csalt, cB, a)
+                    cl = ref.client(pcode if op["code"] == "ok" else wrong, csalt, cB, a)
                     last_client = cl
                     A, proof = cl.A_bytes, cl.M1
                     v = op["variant"]
@@ -336,7 +408,8 @@ def run_plan(plan: Dict[str, Any]) -> Dict[str, Any]:
                     # whatever the handler does with the rest, this A may now be the accessory's A
                     last_A_public = ref.b2i(A) % ref.N == 0
                     last_m3_kind = "degenerate" if last_A_public else "other"
-                    code_key = (cl.K if (op["mode"] == "honest" and op["code"] == "ok" and cur and op["spell"] == "min")
+                    code_key = (cl.K if (op["mode"] == "honest" and op["code"] == "ok" and pcode == code and cur
+                                         and op["spell"] == "min")
                                 else None)
                 sent = m3_sent[-1]
                 stale = sent["xch"] != xch   # bytes recorded in an earlier exchange: whoever sends them shows nothing now
@@ -456,7 +529,8 @@ def run_plan(plan: Dict[str, Any]) -> Dict[str, Any]:
         return {"line": sc.model_line(), "impl": sc.impl_view(), "viol": viol, "kinds": kinds, "outs": outs,
                 "bodies": [o_.get("body", o_.get("ev")) for o_ in sc.ops]}
     finally:
-        env.close()
+        if own_env:
+            env.close()
 
 
 def _outcome(r, t, o) -> str:
@@ -487,6 +561,11 @@ def impl_numeric(code: bytes, salt: bytes, b: int, A: bytes, M: bytes) -> Dict[s
         return {"err": type(ex).__name__}
 
 
+def _numeric_worker(c):
+    return impl_numeric(c["code"].encode(), bytes.fromhex(c["salt"]), int(c["b"], 16), bytes.fromhex(c["A"]),
+                        bytes.fromhex(c["M"]))
+
+
 def numeric_cases(ctx: Ctx):
     rng = ctx.rng
     cases = []
@@ -507,8 +586,18 @@ def numeric_cases(ctx: Ctx):
 # --------------------------------------------------------------------------- run
 
 
-def _judge(ctx: Ctx, plan, res):
+def _judge(ctx: Ctx, plan, res, world=None):
     for sig, desc in res["viol"]:
+        if world is not None:
+            if plan.get("peer_code", plan["code"]) != plan["code"]:
+                sig += ":with-another-accessorys-code"
+            if not any(f.signature == sig for f in ctx.failures):
+                ctx.fail(sig, desc + f" [accessory with setup code {plan['code']!r}; the peer only knows "
+                         f"{plan.get('peer_code', plan['code'])!r}; world: "
+                         + ("one driver whose setup code was changed" if world.get("same_driver") else "two accessories in one process")
+                         + ", codes in order " + ", ".join(p["code"] for p in world["plans"]) + "]",
+                         {"kind": "world", "world": world})
+            continue
         if not any(f.signature == sig for f in ctx.failures):
             small = _minimise(plan, sig)
             ctx.fail(sig, desc + f" [code {plan['code']!r}, {len(small['ops'])} requests: "
@@ -520,7 +609,7 @@ def _minimise(plan, sig):
     def still(ops):
         p = dict(plan, ops=ops)
         try:
-            return any(s == sig for s, _ in run_plan(p)["viol"])
+            return any(s == sig for s, _ in pe.isolated(run_plan, p)["viol"])
         except Exception:  # noqa: BLE001
             return False
 
@@ -540,14 +629,21 @@ def run(ctx: Ctx):
         "(hsrp.Server on A = 0 mod N vs Srp.lean).  A script is non-trivial if some request reaches a refusing or "
         "state-changing branch of the handler (all non-empty scripts do); distinct by the request bodies."
     )
-    plans = boundary_plans(rng) + [random_plan(rng) for _ in range(ctx.n(220, 8000))]
-    results = pe.pmap(run_plan, plans, workers=12)
+    items = boundary_plans(rng) + worlds(rng, ctx.n(4, 200)) + [random_plan(rng) for _ in range(ctx.n(220, 8000))]
+    plans, results, owners = [], [], []
+    for item, rs in zip(items, pe.pmap(run_item, items, workers=12)):
+        for plan, res in zip(item["plans"] if item.get("world") else [item], rs):
+            plans.append(plan)
+            results.append(res)
+            owners.append(item if item.get("world") else None)
 
     lines: List[Dict[str, Any]] = []
     impl: List[Any] = []
     tags: List[Any] = []
-    for plan, res in zip(plans, results):
-        _judge(ctx, plan, res)
+    for plan, res, world in zip(plans, results, owners):
+        _judge(ctx, plan, res, world)
+        if world is not None:
+            st.hit("op", "world-" + ("one-driver-code-changed" if world.get("same_driver") else "two-accessories"))
         lines.append(res["line"])
         impl.append(res["impl"])
         tags.append(("script", len(plan["ops"])))
@@ -558,10 +654,10 @@ def run(ctx: Ctx):
         st.case(["s", res["bodies"], plan["prepaired"]], bool(plan["ops"]))
 
     # numeric stream
-    for c in numeric_cases(ctx):
+    ncases = numeric_cases(ctx)
+    for c, got in zip(ncases, pe.pmap(_numeric_worker, ncases, workers=12)):
         code, salt, b = c["code"].encode(), bytes.fromhex(c["salt"]), int(c["b"], 16)
         A, M = bytes.fromhex(c["A"]), bytes.fromhex(c["M"])
-        got = impl_numeric(code, salt, b, A, M)
         if got.get("verify") is not None:
             ctx.fail("C01:srp-verify-accepts-degenerate-A",
                      f"hsrp.Server.verify returns the server proof for A = {c['k']}*N ({len(A)} bytes) and the proof that "
@@ -605,20 +701,32 @@ def _diff(m, i):
 def search(ctx: Ctx):
     """Deeper failing-input search on the real code (oracle only)."""
     rng = ctx.rng
-    plans = boundary_plans(rng) + [random_plan(rng) for _ in range(1500)]
-    for plan, res in zip(plans, pe.pmap(run_plan, plans, workers=12)):
-        _judge(ctx, plan, res)
+    items = boundary_plans(rng) + worlds(rng, 300) + [random_plan(rng) for _ in range(1500)]
+    for item, rs in zip(items, pe.pmap(run_item, items, workers=12)):
+        for plan, res in zip(item["plans"] if item.get("world") else [item], rs):
+            _judge(ctx, plan, res, item if item.get("world") else None)
 
 
 def replay(ctx: Ctx, r):
     if r["kind"] == "script":
         plan = r["plan"]
-        res = run_plan(plan)
+        res = pe.isolated(run_plan, plan)
         print(f"script on an accessory with setup code {plan['code']!r}, pre-paired: {bool(plan['prepaired'])}")
         for k, o in zip(res["kinds"], res["outs"]):
             print(f"  {k:40s} -> {o}")
         for sig, desc in res["viol"]:
             ctx.fail(sig, desc, r)
+    elif r["kind"] == "world":
+        w = r["world"]
+        print("world:", "one driver whose setup code is changed" if w.get("same_driver") else "two accessories in one process")
+        for plan, res in zip(w["plans"], pe.isolated(run_world, w)):
+            print(f" accessory with setup code {plan['code']!r}; the peer uses {plan.get('peer_code', plan['code'])!r}")
+            for k, o in zip(res["kinds"], res["outs"]):
+                print(f"  {k:40s} -> {o}")
+            for sig, desc in res["viol"]:
+                if plan.get("peer_code", plan["code"]) != plan["code"]:
+                    sig += ":with-another-accessorys-code"
+                ctx.fail(sig, desc, r)
     elif r["kind"] == "numeric":
         got = impl_numeric(r["code"].encode(), bytes.fromhex(r["salt"]), int(r["b"], 16), bytes.fromhex(r["A"]),
                            bytes.fromhex(r["M"]))
